@@ -52,7 +52,7 @@ CHECKS = {
 # per-property fragments (one file per property, so several people can work in parallel)
 import glob as _glob, os as _os
 # a fragment only counts once the coordinator has reviewed it and listed it here
-ENABLED_FRAGMENTS = ["C03", "C05", "C07", "C08", "C09", "C10", "C11", "C12", "C13", "C14", "C15", "C16", "C17", "C18", "C19", "C20"]
+ENABLED_FRAGMENTS = ["C03", "C04", "C05", "C06", "C07", "C08", "C09", "C10", "C11", "C12", "C13", "C14", "C15", "C16", "C17", "C18", "C19", "C20"]
 for _f in sorted(_glob.glob(_os.path.join(_os.path.dirname(_os.path.abspath(__file__)), "checks.d", "C*.py"))):
     if _os.path.basename(_f)[:-3] not in ENABLED_FRAGMENTS and not _os.environ.get("VERIF_ALL_FRAGMENTS"):
         continue
